@@ -2,7 +2,7 @@
 # usage: confirm_mutant.sh <ID> <mN>   (uses scratch worktree $W, default /tmp/confrepo)
 # Confirms: demo passes on clean tree, fails with mutant, package builds, package tests with mutant fail only known-flaky tests.
 export GOFLAGS=-mod=mod GOPROXY=off GOSUMDB=off
-ID=$1; M=$2; W=${W:-/tmp/confrepo}; D=/tmp/mutants-$ID
+ID=$1; M=$2; W=${W:-/tmp/confrepo}; D=${MUTDIR:-/tmp/mutants}-$ID
 cd $W || exit 2
 git checkout -q -- . ; git clean -fdq
 demo=$D/${M}_demo_test.go
